@@ -74,7 +74,7 @@ func foldStatus(st *Status) *Status {
 
 func matchRow(text string, line string, avail int) (ok bool, truncated bool) {
 	if text == strings.TrimRight(line, " ") {
-		return len(line) <= avail, false
+		return true, false // the whole line is shown (rows wider than the window are rejected separately)
 	}
 	if len(line) <= avail {
 		return false, false
@@ -222,7 +222,8 @@ func checkScreen(rawRows []string, rawSt *Status, cfg screenCfg) (string, bool) 
 		}
 	}
 	// headers
-	avail := cfg.width - 2
+	// text columns of a row: the window minus pointer, marker and the column kept free at the right edge
+	avail := cfg.width - 3
 	for _, h := range append(append([]string{}, cfg.headers...), cfg.headerLines...) {
 		n := 0
 		for i, r := range rows {
@@ -391,15 +392,15 @@ func c15Session(t *rapid.T) {
 		case "short":
 			lines[i] = fmt.Sprintf("item-%03d ab", i)
 		case "medium":
-			lines[i] = fmt.Sprintf("item-%03d medium length text b-%d a", i, i*7)
+			lines[i] = fmt.Sprintf("item-%03d medium m%da text b-%d a", i, i, i*7)
 		case "long":
 			lines[i] = fmt.Sprintf("item-%03d %s end-%d", i, uniqueTokens(i, rapid.IntRange(8, 24).Draw(t, "rep"), ""), i)
 		case "accent-medium":
-			lines[i] = fmt.Sprintf("item-%03d café médium téxt b-%d a", i, i*7)
+			lines[i] = fmt.Sprintf("item-%03d café m%dé téxt b-%d a", i, i, i*7)
 		case "accent-long":
 			lines[i] = fmt.Sprintf("item-%03d %s énd-%d", i, uniqueTokens(i, rapid.IntRange(8, 24).Draw(t, "rep"), "é"), i)
 		default:
-			lines[i] = fmt.Sprintf("item-%03d   spaced   out   a  %d", i, i)
+			lines[i] = fmt.Sprintf("item-%03d   s%da   o%db   a  %d", i, i, i, i)
 		}
 	}
 	var cfg screenCfg
